@@ -10,7 +10,7 @@ authority.  Modelled, **not verified**, and deliberately partial:
 * `_checknetloc` (NFKC normalisation of a non-ASCII netloc) is not modelled: on the model
   alphabet (DESIGN.md §4) NFKC is the identity;
 * `_check_bracketed_host` is approximated by `bracketedHostOk` (IPvFuture syntax; IPv6 as
-  hex groups with at most one `::`, no embedded IPv4, no zone id) — the generators only
+  hex groups with at most one `::`, optional `%zone`, no embedded IPv4) — the generators only
   put a handful of fixed bracketed hosts into the streams;
 * `bytes` arguments do not occur.
 
@@ -72,12 +72,18 @@ def bracketedHostOk (h : Str) : Bool :=
     let after := rest.dropWhile isHexDigit
     hex ≠ [] && (match after with | '.' :: more => more ≠ [] | _ => false)
   | _ =>
-    match find h [':', ':'] with
-    | none => hexGroups h == some 8
-    | some i =>
-      match hexGroups (h.take i), hexGroups (h.drop (i + 2)) with
-      | some a, some b => a + b ≤ 7
-      | _, _ => false
+    -- `ipaddress._split_scope_id`: an optional `%zone`, non-empty and without further `%`
+    let (addr, zoneOk) :=
+      match splitFirst h '%' with
+      | (a, none) => (a, true)
+      | (a, some z) => (a, z ≠ [] && !z.contains '%')
+    zoneOk &&
+    (match find addr [':', ':'] with
+     | none => hexGroups addr == some 8
+     | some i =>
+       match hexGroups (addr.take i), hexGroups (addr.drop (i + 2)) with
+       | some a, some b => a + b ≤ 7
+       | _, _ => false)
 
 /-- the bracket checks of `urlsplit` on the netloc -/
 def netlocOk (netloc : Str) : Bool :=
